@@ -147,6 +147,29 @@ func TestC20Errno(t *testing.T) {
 			hC20.Class("errno-alias")
 		}
 	}
+	// the tables as the library's own consumers use them: the parser shows exit=-N by name, and that name maps
+	// back to N (and is what the rule encoder understands); numbers without a name stay numbers
+	for num := 1; num <= 4200; num++ {
+		key := fmt.Sprint(num)
+		m, err := auparse.Parse(auparse.AUDIT_SYSCALL, fmt.Sprintf("audit(1.000:9): arch=c000003e syscall=2 success=no exit=-%d a0=0 a1=0 a2=0 a3=0 items=0 ppid=1 pid=2 auid=0 uid=0 gid=0 euid=0 suid=0 fsuid=0 egid=0 sgid=0 fsgid=0 tty=(none) ses=1 comm=\"c\" exe=\"/c\" key=(null)", num))
+		if err != nil {
+			t.Fatalf("parse: %v", err)
+		}
+		d, err := m.Data()
+		if err != nil {
+			c.fail("errno-displayed", key, "a SYSCALL record with exit=-%d cannot be decoded: %v", num, err)
+			continue
+		}
+		c.entry("errno-displayed", key)
+		shown := d["exit"]
+		if name, named := auparse.AuditErrnoToName[num]; named {
+			if back, ok := auparse.AuditErrnoToNum[shown]; !ok || back != num {
+				c.fail("errno-displayed", key, "the parser shows exit=-%d as %q, which maps back to %d (found %v); the table's name is %q", num, shown, back, ok, name)
+			}
+		} else if shown != "-"+key {
+			c.fail("errno-displayed", key, "the parser shows exit=-%d as %q although the number has no name in the table", num, shown)
+		}
+	}
 	// information only: agreement with the kernel headers
 	diff := []string{}
 	for name, num := range auparse.AuditErrnoToNum {
